@@ -90,6 +90,7 @@ type Task struct {
 	opPC     uintptr
 	pred     func() bool
 	waitLock *lockCore
+	stalledUntil time.Time // stall fault: not schedulable before this virtual instant
 	children int
 	exiting  bool
 	Panic    any
@@ -170,6 +171,16 @@ type Sched struct {
 
 	BgPanics []string
 	Panics   []TaskPanic // every task function that ended with a panic (not Goexit)
+
+	// Stall fault: with probability 1/StallDenom per scheduling step (while StallBudget
+	// lasts) one enabled task is descheduled for a drawn span of *virtual* time -- a
+	// goroutine that lost the CPU (GC pause, overloaded host) in the middle of an
+	// operation while timers fire and other goroutines go on. Off when StallDenom == 0.
+	StallDenom  int
+	StallBudget int
+	StallDurs   []time.Duration
+	Stalls      int
+	OnStall     func(task string, site string, d time.Duration)
 }
 
 // TaskPanic describes a panic that ended a task.
@@ -429,7 +440,17 @@ func SiteOf(pc uintptr) string {
 
 func (s *Sched) enabledLocked() []*Task {
 	var e []*Task
+	var now time.Time
+	if s.Stalls > 0 {
+		now = time.Now()
+	}
 	for _, t := range s.tasks {
+		if s.Stalls > 0 && !t.stalledUntil.IsZero() {
+			if now.Before(t.stalledUntil) {
+				continue
+			}
+			t.stalledUntil = time.Time{}
+		}
 		switch t.state {
 		case stYield:
 			e = append(e, t)
@@ -540,6 +561,28 @@ func (s *Sched) Run(stop func() bool, until time.Time, idleReturn bool, maxIdle 
 		e := s.enabledLocked()
 		if len(e) > 0 {
 			idleStart = time.Time{}
+			if s.StallDenom > 0 && s.StallBudget > 0 && len(s.StallDurs) > 0 && s.choose(s.StallDenom, "stall?") == 0 {
+				t := e[0]
+				if len(e) > 1 {
+					t = e[s.choose(len(e), "stall-task")]
+				}
+				d := s.StallDurs[s.choose(len(s.StallDurs), "stall-for")]
+				t.stalledUntil = time.Now().Add(d)
+				s.StallBudget--
+				s.Stalls++
+				time.AfterFunc(d, func() {
+					select {
+					case s.arrived <- struct{}{}:
+					default:
+					}
+				})
+				name, site := t.String(), SiteOf(t.opPC)
+				s.mu.Unlock()
+				if s.OnStall != nil {
+					s.OnStall(name, site, d)
+				}
+				continue
+			}
 			n := len(e)
 			t := s.pick(e)
 			s.release(t, n)
